@@ -7,7 +7,7 @@ use crate::zoo::{self, ppath, Eos};
 use feos::pcsaft::{PcSaft, PcSaftParameters, PcSaftRecord};
 use feos::ResidualModel;
 use feos_core::parameter::{Parameter, PureRecord};
-use feos_core::{Contributions, DensityInitialization, EosError, ReferenceSystem, Residual, SolverOptions, State};
+use feos_core::{Contributions, DensityInitialization, EosError, ReferenceSystem, Residual, SolverOptions, State, StateBuilder};
 use ndarray::Array1;
 use quantity::*;
 use serde_json::{json, Value};
@@ -276,7 +276,24 @@ fn npt_grid(tr: &mut Tr, args: &Args, rng: &mut Rng) {
                     }
                 };
                 let rho0 = eos.max_density(Some(&one)).unwrap() * rng.lrange(1e-4, 1.0);
-                tr.ev(json!({"ev":"Npt","file":file,"index":ri,"Tr":fs(tr_),"pr":fs(pr),"p_in":fs(p.to_reduced()),
+                // the same (T, p) through the builder's other routes: with a volume instead of an amount (T, p, V), and with the total amount only; the phase
+                // hint must select the same branch on every route
+                let v0 = Volume::from_reduced(rng.lrange(1e2, 1e5));
+                let via = |route: &str, hint: &str| -> Value {
+                    let r = guarded(std::panic::AssertUnwindSafe(|| {
+                        let b = StateBuilder::new(&eos).temperature(t).pressure(p);
+                        let b = if route == "TpV" { b.volume(v0) } else { b.total_moles(Moles::from_reduced(2.5)) };
+                        let b = match hint { "vapor" => b.vapor(), "liquid" => b.liquid(), _ => b };
+                        b.build()
+                    }));
+                    match r {
+                        Ok(Ok(s)) => json!({"route": route, "hint": hint, "ok": true, "rho": fs(s.density.to_reduced())}),
+                        Ok(Err(e)) => json!({"route": route, "hint": hint, "ok": false, "err": err_name(&e)}),
+                        Err(m) => json!({"route": route, "hint": hint, "ok": false, "err": format!("Panic:{}", m)}),
+                    }
+                };
+                let routes: Vec<Value> = ["TpV", "TpN"].iter().flat_map(|r| ["none", "vapor", "liquid"].iter().map(|h| via(r, h)).collect::<Vec<_>>()).collect();
+                tr.ev(json!({"ev":"Npt","file":file,"index":ri,"Tr":fs(tr_),"pr":fs(pr),"p_in":fs(p.to_reduced()),"routes":routes,
                     "none":root(DensityInitialization::None),"vapor":root(DensityInitialization::Vapor),"liquid":root(DensityInitialization::Liquid),
                     "init":root(DensityInitialization::InitialDensity(rho0)),"rho0_rel":fs(rho0.to_reduced()/eos.max_density(Some(&one)).unwrap().to_reduced())}));
                 // the same three single density iterations once more with hook H2 switched on: the loop's own account of what it did
